@@ -185,7 +185,9 @@ namespace RecInt
     // a = b*b
     template <size_t K>
     inline void lsquare(rint<K+1>& a, const rint<K>& b) {
-        lsquare(a.Value, b.Value);
+        // square the magnitude: b.Value is the two's-complement image of a negative b
+        if (b.isNegative()) lsquare(a.Value, (-b).Value);
+        else lsquare(a.Value, b.Value);
     }
 }
 
